@@ -251,6 +251,98 @@ func featL() xmpp.StreamFeature {
 	return hspeer.Custom(hspeer.CustomCfg{NS: nsL, Local: "layer", Req: false, Prohibited: xmpp.Secure, OKMask: xmpp.Secure, Restart: true})
 }
 
+// layerFailHandshake: the voluntary layer feature is refused, and its Negotiate
+// function returns a new transport together with its error (it had built the
+// layer before it learnt of the refusal).  The peer is obliging: it carries on
+// as if the layer were in place, with new headers and, on the receiving side,
+// the selection of the mandatory feature.  A step has failed: the constructor
+// must fail.
+func layerFailHandshake(ws, recv bool) *handshake {
+	name := "layerfail-rw"
+	if recv {
+		name += "-recv"
+	} else {
+		name += "-init"
+	}
+	if ws {
+		name = "ws-" + name
+	}
+	fl := func(refuse bool) xmpp.StreamFeature {
+		return hspeer.Custom(hspeer.CustomCfg{NS: nsL, Local: "layer", Req: false, Prohibited: xmpp.Secure, OKMask: xmpp.Secure, Restart: true, Refuse: refuse, FailWithRW: true})
+	}
+	return &handshake{Name: name, Role: map[bool]string{true: "recv", false: "init"}[recv], Expect: "stepfail", Note: "the refused layer feature returns a transport together with its error; the peer restarts the stream regardless", New: func() *attempt {
+		a := &attempt{}
+		var steps []hspeer.Step
+		if !recv {
+			steps = []hspeer.Step{
+				{Want: []string{first(ws)}, Reply: hspeer.Say(srvHeader(ws, "s1") + hspeer.Features(ws, hspeer.Advert(nsL, "layer", false)))},
+				{Want: []string{"select"}, Reply: hspeer.Say(hspeer.El(nsL, "fail"))},
+				{Want: []string{first(ws)}, Reply: hspeer.Say(srvHeader(ws, "s2") + hspeer.Features(ws, ""))},
+			}
+			a.call = func(ctx context.Context, conn io.ReadWriter, log *hspeer.Log) (*xmpp.Session, error) {
+				fs := hspeer.InstrumentAll(log, fl(false))
+				return xmpp.NewSession(ctx, serverJID, clientJID, conn, 0, negotiatorFor(ws, fs))
+			}
+		} else {
+			steps = []hspeer.Step{
+				{Want: nil, Reply: hspeer.Say(cliHeader(ws))},
+				{Want: []string{first(ws), "features"}, Reply: hspeer.Say(hspeer.El(nsL, "select"))},
+				{Want: []string{"fail"}, Reply: hspeer.Say(cliHeader(ws))},
+				{Match: sawFeatures, Reply: hspeer.Say(hspeer.El(nsM, "select"))},
+			}
+			a.call = func(ctx context.Context, conn io.ReadWriter, log *hspeer.Log) (*xmpp.Session, error) {
+				m := hspeer.Custom(hspeer.CustomCfg{NS: nsM, Local: "m", Req: true, OKMask: xmpp.Ready})
+				fs := hspeer.InstrumentAll(log, fl(true), m)
+				return xmpp.ReceiveSession(ctx, conn, 0, negotiatorFor(ws, fs))
+			}
+		}
+		a.peer = hspeer.NewPeer(steps...)
+		return a
+	}}
+}
+
+// featuresRefused: on the initiating side the peer answers the stream header
+// (of the first stream, or of the stream after a restart) with its own header
+// and a stream error where the features list belongs, the usual way for a
+// server to refuse a stream (host-unknown, policy-violation, see-other-host).
+// The faults then cut that error off at every byte.
+func featuresRefused(ws, restarted bool, cond string) *handshake {
+	name := "featerr-" + cond
+	if restarted {
+		name += "-restart"
+	}
+	name += "-init"
+	if ws {
+		name = "ws-" + name
+	}
+	body := `<` + cond + ` xmlns='` + hspeer.NSStreamErr + `'/>`
+	if cond == "see-other-host" {
+		body = `<see-other-host xmlns='` + hspeer.NSStreamErr + `'>other.example.net:5222</see-other-host><text xmlns='` + hspeer.NSStreamErr + `' xml:lang='en'>moved</text>`
+	}
+	errEl := `<stream:error>` + body + `</stream:error>`
+	if ws {
+		errEl = `<error xmlns='` + hspeer.NSStream + `'>` + body + `</error>`
+	}
+	return &handshake{Name: name, Role: "init", Expect: "refused", Note: "the peer sends the stream error " + cond + " where its features list belongs", New: func() *attempt {
+		a := &attempt{}
+		var steps []hspeer.Step
+		if restarted {
+			steps = append(steps,
+				hspeer.Step{Want: []string{first(ws)}, Reply: hspeer.Say(srvHeader(ws, "s1") + hspeer.Features(ws, hspeer.Advert(nsL, "layer", false)))},
+				hspeer.Step{Want: []string{"select"}, Reply: hspeer.Say(hspeer.El(nsL, "ok"))},
+				hspeer.Step{Want: []string{first(ws)}, Reply: hspeer.Say(srvHeader(ws, "s2") + errEl)})
+		} else {
+			steps = append(steps, hspeer.Step{Want: []string{first(ws)}, Reply: hspeer.Say(srvHeader(ws, "s1") + errEl)})
+		}
+		a.peer = hspeer.NewPeer(steps...)
+		a.call = func(ctx context.Context, conn io.ReadWriter, log *hspeer.Log) (*xmpp.Session, error) {
+			fs := hspeer.InstrumentAll(log, featL())
+			return xmpp.NewSession(ctx, serverJID, clientJID, conn, 0, negotiatorFor(ws, fs))
+		}
+		return a
+	}}
+}
+
 func layerHandshake(ws, recv, cut bool) *handshake {
 	name := "layer"
 	if cut {
@@ -322,6 +414,8 @@ func refusalHandshakes() []*handshake {
 		layerHandshake(false, false, false), layerHandshake(true, false, false), layerHandshake(false, true, false), layerHandshake(true, true, false),
 		layerHandshake(false, false, true), layerHandshake(false, true, true), layerHandshake(true, false, true),
 		saslChal(false, false), saslChal(true, false), saslChal(false, true), saslChal(true, true),
+		layerFailHandshake(false, false), layerFailHandshake(false, true), layerFailHandshake(true, false),
+		featuresRefused(false, false, "host-unknown"), featuresRefused(false, true, "policy-violation"), featuresRefused(false, false, "see-other-host"), featuresRefused(true, false, "host-unknown"), featuresRefused(true, true, "see-other-host"),
 
 		// --- bind, initiating side
 		bindReply("bind-error-init", "refused", "error iq with an <error/> payload", func(id string) string {
